@@ -132,6 +132,36 @@ func verifHarnessC11Scaled() {
 		readAll(df, "C11.appended")
 		verifReach("reopened")
 	}
+	if verifParam("truncread") == 1 && len(poss) >= 2 {
+		// a sequential reader that is kept while the file is cut back to its position and appended to again
+		// (what recovery does with a torn tail) must see the NEW bytes, at the positions the writer reports
+		r := df.NewReader()
+		_, _, err := r.NextLogRecord()
+		verifAssert(err == nil, "C11.truncread-first")
+		_, _, err = r.NextLogRecord() // the reader has seen (and may have buffered) the record that is cut away next
+		verifAssert(err == nil, "C11.truncread-second")
+		cut := int64(poss[1].BlockID)*blockSize + int64(poss[1].Offset)
+		r2 := df.NewReader()
+		_, _, _ = r2.NextLogRecord()
+		verifAssert(r2.Position() == cut || (cut%blockSize == 0), "C11.truncread-position")
+		verifAssert(df.Truncate(cut) == nil, "C11.truncread-truncate")
+		vl := verifInt("vlen3")
+		verifAssume(vl >= 0)
+		verifAssume(vl <= maxLen)
+		k3, v3 := verifBytes("k3", 1), verifBytes("v3", vl)
+		p3, err := df.WriteLogRecord(&LogRecord{Key: k3, Value: v3, Type: LogRecordNormal}, hdr)
+		verifAssert(err == nil, "C11.truncread-append")
+		// r2 stood exactly at the cut: its next record is the new one
+		rec, pos, err := r2.NextLogRecord()
+		verifAssert(err == nil, "C11.truncread-seq-err")
+		verifAssert(*pos == *p3, "C11.truncread-seq-pos")
+		verifAssert(len(rec.Key) == 1 && len(rec.Value) == vl, "C11.truncread-seq-len")
+		verifAssert(verifAnd(verifBytesEq(rec.Key, k3), verifBytesEq(rec.Value, v3)), "C11.truncread-seq-bytes")
+		got, err := df.ReadRecordValue(p3)
+		verifAssert(err == nil && len(got) == vl, "C11.truncread-random")
+		verifAssert(verifBytesEq(got, v3), "C11.truncread-random-bytes")
+		verifReach("reader-across-truncate")
+	}
 	verifReach("done")
 	if verifParam("witness") == 1 {
 		verifAssert(false, "witness")
